@@ -101,7 +101,7 @@ def build_program(states, rng, per_sig=6, kinds=("function",), max_sigs=None):
                     v = pv[j + 1] if j < npar else "('extra', %d)" % j
                     return override.get(("pos", j), v) if override else v
                 i = tok[1]
-                v = "('zz',)" if i == 0 or sig[i - 1]["k"] == "PO" else pv[i]
+                v = "('zz',)" if i == 0 else pv[i]
                 return override.get(("kw", i), v) if override else v
             return val
         # a call that spells a default out is equivalent to omitting it: give such parameters the default value
@@ -126,6 +126,17 @@ def build_program(states, rng, per_sig=6, kinds=("function",), max_sigs=None):
                     a2, k2 = call_exprs(st, names, val_for(st, {tok: REBUILT[v]}))
                     add(dict(base, args=a2, kwargs=k2, mode="call"), role="equiv", cls=(n, image(st)))
                     break
+            # a default spelled out (positionally or by keyword) is the same call
+            for i, b in enumerate(st["res"][1], 1):
+                if b[0] != "dflt": continue
+                for st2 in shapes:
+                    b2 = st2["res"][1]
+                    if b2[i - 1][0] == "dflt" or any(x[0] != y[0] or (x[0] in ("star", "starstar") and x != y) for j, (x, y) in enumerate(zip(st["res"][1], b2)) if j != i - 1):
+                        continue
+                    tok = ("pos", b2[i - 1][1]) if b2[i - 1][0] == "pos" else ("kw", i)
+                    a2, k2 = call_exprs(st2, names, val_for(st2, {tok: "('dflt', %d)" % i}))
+                    add(dict(base, args=a2, kwargs=k2, mode="call"), role="equiv", cls=(n, image(st)))
+                    break
             add(dict(base, args=a, kwargs=k, mode="check"), role="check_after", cls=(n, image(st)))
             add(dict(base, args=a, kwargs=k, mode="shelve"), role="equiv", cls=(n, image(st)))
             # near-colliding value in exactly one bound parameter: never the same entry
@@ -148,6 +159,22 @@ def build_program(states, rng, per_sig=6, kinds=("function",), max_sigs=None):
                 a2, k2 = call_exprs(st, names, val_for(st, {("kw", named[-1]): "('other value',)"}))
                 add(dict(b2, args=a2, kwargs=k2, mode="check"), role="check_after", cls=(n, "ig" + image(st)))
                 add(dict(b2, args=a2, kwargs=k2, mode="call"), role="equiv", cls=(n, "ig" + image(st)))
+        # two partials over the same function that differ only in a frozen argument are different functions
+        npar = sum(1 for p in sig if p["k"] in ("PO", "PK"))
+        if kind == "function" and npar >= 2 and n % 3 == 0:
+            cand = [s for s in shapes if s["npos"] == npar and not s["kw"]]
+            if cand:
+                st = cand[0]
+                rest = "(" + "".join(val_for(st)(("pos", j)) + ", " for j in range(1, npar)) + ")"
+                for fz in (pv[1], PARTNERS[pv[1]][0], "('frozen', 3)"):
+                    add(dict(f=fname, kind="partial", frozen="(%s,)" % fz, args=rest, kwargs="{}", mode="call"), role="call", cls=(n, "partial", fz))
+                    add(dict(f=fname, kind="partial", frozen="(%s,)" % fz, args=rest, kwargs="{}", mode="shelve"), role="equiv", cls=(n, "partial", fz))
+        # the same function cached through two Memory objects (two directories)
+        if kind == "function" and n % 4 == 1:
+            st = shapes[0]; a, k = call_exprs(st, names, val_for(st))
+            for store in ("_A", "_B"):
+                add(dict(base, args=a, kwargs=k, mode="call", store=store), role="call", cls=(n, "store" + store, image(st)))
+                add(dict(base, args=a, kwargs=k, mode="check", store=store), role="check_after", cls=(n, "store" + store, image(st)))
     return "\n\n".join(src), steps, exp
 
 
@@ -168,8 +195,8 @@ def judge(c, own, steps, exp, lines, phase, done=None):
     done = set(done or ())
     for st, e, l in zip(steps, exp, lines):
         c.evaluations += 1
-        key = {"function": st["f"], "kind": st.get("kind"), "args": st["args"], "kwargs": st["kwargs"], "mode": st["mode"], "role": e["role"], "phase": phase,
-               "ignore": st.get("ignore")}
+        key = {"function": st["f"], "fkind": st.get("kind"), "args": st["args"], "kwargs": st["kwargs"], "mode": st["mode"], "role": e["role"], "phase": phase,
+               "ignore": st.get("ignore"), "frozen": st.get("frozen"), "store": st.get("store"), "session": "fresh_process" if phase.endswith("fresh_process") else "same_process"}
         cls = e["cls"]
         if "exc" in l:
             if own == "C06" and "plain_exc" not in l:
